@@ -57,13 +57,19 @@ def write_wrappers(ctx) -> dict[str, tuple[int | None, int | None]]:
             continue
         params = fn.positional_params()
         r = ctx.resolver(fn)
+        # `with <path>.open("wb") as f: f.write(payload)`: the payload of an open()-style sink is what is written to its handle
+        handle_payload = {id(ocall): payload for _w, ocall, payload in handle_writes(fn.node, r)}
         for n in walk_no_nested(fn.node):
             if isinstance(n, ast.Call):
                 s = classify_sink(n, r)
                 if s is not None and isinstance(s.path, ast.Name) and s.path.id in params:
                     pay = None
-                    if s.payload is not None:
-                        for x in ast.walk(s.payload):
+                    payload = s.payload if s.payload is not None else handle_payload.get(id(n))
+                    if payload is not None:
+                        # a local prepared for the write (`encoded = new_code.encode("utf-8")`) stands for what it was computed from
+                        if isinstance(payload, ast.Name) and payload.id not in params:
+                            payload = r.expand(payload)
+                        for x in ast.walk(payload):
                             if isinstance(x, ast.Name) and x.id in params:
                                 pay = params.index(x.id)
                     if pay is not None:
